@@ -69,3 +69,48 @@ def run(tier):
                          "runs_where_other_request_ran_through_a_held_critical_section": rep["ran_through"],
                          "harness": st}}
     return viol, cov, 1, rep["runs"], rep["runs"]
+
+
+def run_node(tier):
+    """node-level pairs (Node.tla alphabet) under imposed schedules, judged by ConcNode.tla"""
+    quick = tier == "quick"
+    binpath = vlib.build("locks")
+    d = vlib.workdir("conc-node")
+    alpha = os.path.join(d, "alphabet.json")
+    vlib.tlc("NodeAlphabet", os.path.join(SPEC, "NodeAlphabet.cfg"), env={"ND_OUT": alpha}, workers=1, timeout=300,
+             name="node-alphabet-conc")
+    reqs = [r for r in json.load(open(alpha)) if r["op"] not in ("Restart",)]
+    prefixes = [[],
+                [{"op": "AddAllow", "l": ["a1"]}, {"op": "AddInvoice", "h": "h1", "v": "v1"},
+                 {"op": "NewChannel", "d": 1}, {"op": "Setup", "d": 1}, {"op": "NewChannel", "d": 2}]]
+    rng = random.Random(vlib.seed())
+    pairs = [(a, b) for i, a in enumerate(reqs) for b in reqs[i:]]
+    if quick:
+        pairs = rng.sample(pairs, min(len(pairs), 70))
+    cases = [{"prefix": p, "a": a, "b": b} for p in (prefixes[1:] if quick else prefixes) for a, b in pairs]
+    cf = os.path.join(d, "cases.ndjson")
+    with open(cf, "w") as f:
+        for c in cases:
+            f.write(json.dumps(c) + "\n")
+    runs_file = os.path.join(d, "runs.ndjson")
+    st = vlib.run_bin(binpath, ["conc-node", "--cases", cf, "--out", runs_file], timeout=3000)
+    report = os.path.join(d, "report.json")
+    sw = json.load(open(os.path.join(vlib.ROOT, "spec", "switches.json")))
+    vlib.tlc("ConcNode", os.path.join(SPEC, "ConcNode.cfg"),
+             env={"CN_RUNS": runs_file, "CN_REPORT": report,
+                  "ND_ATOMIC_ALLOWLIST": "true" if sw.get("atomicAllowlist") else "false"},
+             workers=1, timeout=1800, name="conc-node")
+    rep = json.load(open(report))
+    viol = []
+    for x in rep["nonlinearizable"]:
+        key = "node-nonlinearizable:%s||%s" % tuple(sorted([x["a"]["op"], x["b"]["op"]]))
+        viol.append({"key": key, "what": "concurrent %s and %s on one node produced an outcome no sequential order explains" % (
+            x["a"]["op"], x["b"]["op"]), "replay": {"kind": "conc-node", "run": x}})
+    for x in rep["stuck"]:
+        key = "node-stuck:%s||%s" % tuple(sorted([x["a"]["op"], x["b"]["op"]]))
+        viol.append({"key": key, "what": "concurrent %s and %s never completed" % (x["a"]["op"], x["b"]["op"]),
+                     "replay": {"kind": "conc-node", "run": x}})
+    cov = {"atomicity_node_level": {"cases": len(cases), "concurrent_runs": rep["runs"],
+                                    "nonlinearizable": len(rep["nonlinearizable"]), "stuck": len(rep["stuck"]),
+                                    "spec_divergences": len(rep["spec_divergences"]), "harness": st}}
+    return viol, cov, rep["runs"]
